@@ -190,6 +190,40 @@ def m_naxis(kind, resized):
         return "NAXISn" + kind + ("-resized" if resized else ""), serialise(hd)
     return f
 
+def m_mod32(which):
+    """an integer header value replaced by one that is congruent to it modulo 2^32 (or 2^31 / 2^16): a 64-bit value that survives
+    a narrowing cast unchanged — sizes of the primary image, of a knot vector, of EXTENTS; an ORDER key"""
+    def f(rng, hd):
+        k = rng.choice([1, 1, 2, 3]) * (2 ** rng.choice([32, 32, 32, 33, 31, 16]))
+        if which == "order":
+            p = hd[0]
+            nd = len(p.axes())
+            i = rng.below(nd)
+            v = p.key("ORDER%d" % i)
+            if v is None:
+                return None
+            p.set("ORDER%d" % i, str(int(v) + k))
+            return "mod32-order", serialise(hd)
+        if which == "primary":
+            h = hd[0]
+        elif which == "extents":
+            i = ext_index(hd, "EXTENTS")
+            if i is None:
+                return None
+            h = hd[i]
+        else:
+            ks = knot_hdus(hd)
+            if not ks:
+                return None
+            h = hd[ks[rng.choice(sorted(ks))]]
+        ax = h.axes()
+        if not ax:
+            return None
+        j = rng.rint(1, len(ax))
+        h.set("NAXIS%d" % j, str(ax[j - 1] + k))
+        return "mod32-" + which, serialise(hd)
+    return f
+
 def m_naxis_count(kind):
     def f(rng, hd):
         p = hd[0]
@@ -573,6 +607,7 @@ MUTATIONS = [
     (3, valid("asis")), (1, valid("no-extents")), (1, valid("single-order")), (1, valid("reordered")), (1, valid("lowercase-extname")), (1, valid("extra-hdu")),
     (3, m_order("+1")), (3, m_order("-1")), (2, m_order("=huge")), (2, m_order("=negative")), (1, m_order("-missing")), (1, m_order("=float")), (1, m_order("=string")),
     (2, m_badcard(True, True)), (1, m_badcard(True, False)), (1, m_badcard(False, True)), (1, m_badcard(False, False)),
+    (2, m_mod32("extents")), (1, m_mod32("knots")), (1, m_mod32("primary")), (1, m_mod32("order")),
     (1, m_order_single("negative")), (1, m_order_single("huge")), (1, m_order_single("same")), (1, m_order_single("float")),
     (3, m_naxis("+1", True)), (3, m_naxis("-1", True)), (2, m_naxis("=0", True)), (1, m_naxis("+1", False)), (1, m_naxis("-1", False)), (1, m_naxis("=0", False)), (1, m_naxis("=huge", False)),
     (1, m_naxis_count("-1")), (1, m_naxis_count("=0")), (1, m_naxis_count("+1")),
